@@ -336,6 +336,61 @@ def coq_sfcase(r):
             + C.clist([v(x) for x in uniq]) + " " + C.cbool(r["has_nan"]) + ' (VStr "__NAN__") ' + impl)
 
 
+def float32_runs(obj, case, names):
+    """a few float32 neighbours of the float64 boundaries, transformed in a float32 column.
+    Judged by the python-side oracle only (the model is the float64 semantics)."""
+    runs = []
+    kept = [f for f in case["features"] if f["name"] in names]
+    sub = dict(case, features=kept)
+    for f in kept:
+        if f["kind"] != "quant":
+            continue
+        st = extract_state(obj, f["name"])
+        fin = [k for k in decs(st["keys"]) if not isinstance(k, str) and not C.is_nan(k) and math.isfinite(k)]
+        cells = []
+        for b in fin[:4]:
+            with np.errstate(all="ignore"):
+                c = np.float32(b)
+                for x in (np.nextafter(c, np.float32(-np.inf)), c, np.nextafter(c, np.float32(np.inf))):
+                    if np.isfinite(x):
+                        cells.append(float(x))
+        if not cells:
+            continue
+        X = probe_frame(sub, f["name"], cells, "float32")
+        outs, exc = run_transform(obj, X, [f["name"]])
+        runs.append({"state": st, "cells": encs(cells), "out": outs[f["name"]], "exc": exc})
+    return runs
+
+
+def oracle_f32(r):
+    """float64 lookup expected; the failure is the KNOWN one iff the output is exactly what
+    comparing in float32 (numpy's weak python-float scalar) predicts"""
+    st = St(r["state"])
+    name = r["state"]["name"]
+    if isinstance(r["out"], str):
+        return False, f"[float32 column] feature {name}: transform raised ({r['out']}: {r.get('exc')})"
+    for c, o in zip(decs(r["cells"]), decs(r["out"])):
+        l = st.first_geq(c)
+        exp = None if l is None else st.label(l)
+        if exp is not None and leq(exp, o):
+            continue
+        with np.errstate(all="ignore"):
+            l32 = next((k for k in st.leaders() if not isinstance(k, str) and not C.is_nan(k)
+                        and np.float32(c) <= np.float32(k)), None)
+        if l32 is not None and leq(st.label(l32), o):
+            return False, (f"[float32 column] feature {name}: cell {c!r} -> {o!r} = label of boundary {l32!r} "
+                           f"(comparison evaluated in float32); the first boundary >= it is {l!r} with label {exp!r}")
+        return False, (f"[float32 column] feature {name}: cell {c!r} -> {o!r}, but the first boundary >= it is "
+                       f"{l!r} with label {exp!r}")
+    return True, ""
+
+
+def known_sigs_f32(msg):
+    if msg.startswith("[float32 column]") and "(comparison evaluated in float32)" in msg:
+        return ["float32_column_compared_in_float32"]
+    return []
+
+
 def benign_value(col):
     for v in col:
         if not C.is_nan(v):
@@ -798,7 +853,7 @@ class C04(Prop):
                 cs, os_ = dedup_pairs(cells[n], outs[n])
                 runs.append({"cells": cs, "out": os_})
         return {"features": states, "runs": runs, "exc": exc, "index": variant,
-                "string_fit": string_fit_runs(case)}
+                "string_fit": string_fit_runs(case), "float32": float32_runs(obj, case, names)}
 
     def oracle(self, case, out):
         for st, r in zip(out["features"], out["runs"]):
@@ -809,7 +864,14 @@ class C04(Prop):
             ok, msg = oracle_sf(r)
             if not ok:
                 return False, msg
-        return True, ""
+        known = None                      # a failure that is not the recorded finding comes first
+        for r in out.get("float32", []):
+            ok, msg = oracle_f32(r)
+            if not ok:
+                if not known_sigs_f32(msg):
+                    return False, msg
+                known = known or msg
+        return (False, known) if known else (True, "")
 
     def coq_shards(self, cases, outs):
         return coq_shards_for(cases, outs, self.verdict_fn)
@@ -832,7 +894,7 @@ class C04(Prop):
         return f"{case['cls']}|{p['output_dtype']}|{p['dropna']}|{bool(case.get('json'))}|{','.join(parts)}"
 
     def finding_signatures(self, case, out, msg):
-        sigs = []
+        sigs = known_sigs_f32(msg)
         for st in out.get("features", []):
             sigs += signatures_c04(st)
         if any(not oracle_sf(r)[0] for r in out.get("string_fit", [])):
@@ -902,6 +964,8 @@ class C04(Prop):
                 inc(d["nan_share"], round(nn / max(1, len(f["values"])), 1))
             if isinstance(o, dict) and "features" in o:
                 d["string_fit_runs"] += len(o.get("string_fit", []))
+                d["float32_probe_cells"] = d.get("float32_probe_cells", 0) + sum(
+                    len(r["cells"]) for r in o.get("float32", []))
                 if "index" in o:
                     inc(d["frame_index"], o["index"])
                 for st, r in zip(o["features"], o["runs"]):
